@@ -5,6 +5,7 @@ import ThriftVerif.Facts.ExpectGen
 #print axioms ThriftVerif.Properties.C04.paths_never_differ
 #print axioms ThriftVerif.Properties.C04.real_value_path_accepts_strict
 #print axioms ThriftVerif.Properties.C04.real_paths_agree_on_valid_input
+#print axioms ThriftVerif.Properties.C04.real_paths_never_differ
 #print axioms ThriftVerif.Properties.C04.real_value_path_more_permissive_witness
 #print axioms ThriftVerif.Properties.C04.stream_more_permissive_witness
 #print axioms ThriftVerif.Properties.C04.encode_is_writevalue_of_towire
